@@ -6,3 +6,5 @@ import Fir.Props.C04
 #print axioms Fir.C04.crop_steps_as_modelled
 #print axioms Fir.C04.cropCheck_zero
 #print axioms Fir.C04.crop_f64_iff
+#print axioms Fir.C04.accepted_view_rows
+#print axioms Fir.C04.accepted_view_inside_parent
